@@ -5,7 +5,9 @@
      E                  one line per type: rows of Equal and DeepEqual against every type
      P                  one line per type i: rows init_ok(t=i,v=j) assign_ok(t=i,v=j) cast_ok(lhs=i,target=j)
                         cast_assignable_ok(lhs=i,target=j)
-     W                  well-formedness (ids identify objects) of the registered population *)
+     W                  well-formedness (ids identify objects) of the registered population
+   Type-level generic commands GR GS GI GC GB GU GT: see harness/go/cmd/typex/generic.go (same syntax, same
+   output; instantiated Kombinationen are renumbered 1000.. in the order they are first printed). *)
 open C14_model
 open Common
 
@@ -56,6 +58,32 @@ let rec show = function
 
 let bit b = if b then '1' else '0'
 
+(* ---- generic scenario state ---- *)
+let rec nat_of_int i = if i <= 0 then O else S (nat_of_int (i - 1))
+let arities : (int, int) Hashtbl.t = Hashtbl.create 8
+let arity g = nat_of_int (try Hashtbl.find arities (int_of_n g) with Not_found -> -1)
+let first_id = 100000
+let gst = ref (gstate0 (n_of_int first_id))
+let sigma : (n * ty) list ref = ref []
+let seen_fwd : (int, int) Hashtbl.t = Hashtbl.create 16   (* model id -> printed number *)
+let seen_rev : (int, int) Hashtbl.t = Hashtbl.create 16   (* printed number -> model id *)
+let register id =
+  if not (Hashtbl.mem seen_fwd id) then begin
+    let k = 1000 + Hashtbl.length seen_fwd in
+    Hashtbl.replace seen_fwd id k; Hashtbl.replace seen_rev k id end
+let rec to_model = function        (* printed numbers -> model ids *)
+  | Struct i -> (match Hashtbl.find_opt seen_rev (int_of_n i) with Some m -> Struct (n_of_int m) | None -> Struct i)
+  | List e -> List (to_model e) | Alias (i, u) -> Alias (i, to_model u) | Def (i, u) -> Def (i, to_model u)
+  | Inst (i, u) -> Inst (i, to_model u) | t -> t
+let rec of_model = function        (* model ids -> printed numbers, registering new objects in order of appearance *)
+  | Struct i when int_of_n i >= first_id -> register (int_of_n i); Struct (n_of_int (Hashtbl.find seen_fwd (int_of_n i)))
+  | List e -> List (of_model e) | Alias (i, u) -> Alias (i, of_model u) | Def (i, u) -> Def (i, of_model u)
+  | Inst (i, u) -> Inst (i, of_model u) | t -> t
+let tparam_name s = match parse_spec s with TParam n -> n | _ -> failwith ("not a type parameter: " ^ s)
+let show_sigma () =
+  let l = List.sort compare (List.map (fun (n, t) -> (int_of_n n, t)) !sigma) in
+  String.concat "" (List.map (fun (n, t) -> Printf.sprintf " G#%d=%s" n (show (of_model t))) l)
+
 let () =
   let types : (int, ty) Hashtbl.t = Hashtbl.create 1024 in
   let all () = let n = Hashtbl.length types in Array.init n (fun i -> Hashtbl.find types i) in
@@ -79,5 +107,23 @@ let () =
       Array.iteri (fun i a ->
         Printf.printf "P %d %s %s %s %s\n" i (row ts (init_ok a)) (row ts (assign_ok a)) (row ts (cast_ok a)) (row ts (cast_assignable_ok a))) ts
     | ["W"] -> Printf.printf "W %c\n" (bit (wf_types (Array.to_list (all ()))))
+    | ["GR"] -> Hashtbl.reset arities; Hashtbl.reset seen_fwd; Hashtbl.reset seen_rev; gst := gstate0 (n_of_int first_id); sigma := []
+    | "GS" :: gid :: ps -> Hashtbl.replace arities (int_of_string gid) (List.length ps)
+    | "GI" :: gid :: specs ->
+      let args = List.map (fun s -> to_model (parse_spec s)) specs in
+      let (r, st') = get_inst arity !gst (n_of_int (int_of_string gid)) args in
+      gst := st';
+      (match r with None -> print_endline "GI nil" | Some s -> Printf.printf "GI %s\n" (show (of_model (Struct s))))
+    | ["GC"] -> sigma := []
+    | ["GB"; g; spec] -> sigma := !sigma @ [(tparam_name g, to_model (parse_spec spec))]
+    | ["GU"; a; p] ->
+      let ((r, sg), st') = unify arity !gst (to_model (parse_spec a)) (to_model (parse_spec p)) !sigma in
+      gst := st'; sigma := sg;
+      let res = match r with UNil -> "nil" | UPanic -> "panic" | UFuel -> "fuel" | UOk t -> show (of_model t) in
+      Printf.printf "GU %s%s\n" res (show_sigma ())
+    | ["GT"; spec] ->
+      let (r, st') = instantiate_type arity !gst (to_model (parse_spec spec)) !sigma in
+      gst := st';
+      Printf.printf "GT %s\n" (match r with None -> "nil" | Some t -> show (of_model t))
     | [] -> ()
     | _ -> failwith ("bad line " ^ line)) (read_lines stdin)
